@@ -14,7 +14,7 @@ from vvlib import (EVID, OUT, ROOT, SPEC, ToolError, build_harness, ensure_dirs,
 # lattice families (inputs of the cell machine VCell)
 # ----------------------------------------------------------------------------------------------
 VCELL_INVS = ["TypeOK", "NoDegenerate", "Closed", "Euler", "Oriented", "InsideCurrent", "Final",
-              "SortedVisits", "SafetyBound", "PeriodicNoWalls", "ShiftLattice", "LowDimPrism"]
+              "SortedVisits", "SafetyBound", "PeriodicNoWalls", "ShiftLattice", "LowDimPrism", "QueriesInDomain"]
 
 
 def fam(G, dim, per, nmin, nmax, order="all", fix=None, view=None):
@@ -926,8 +926,155 @@ def check_C18(tier, seed):
     return out.finish()
 
 
+# ----------------------------------------------------------------------------------------------
+# C10 / C11: exact predicate, integer grid, backends
+# ----------------------------------------------------------------------------------------------
+def run_vpred(out, grid, emitmod, cases_file):
+    cfg = os.path.join(OUT, "tlc", "vpred_%s.cfg" % grid)
+    write_cfg(cfg, constants=dict(GridName=grid, EmitMod=emitmod, Emit=True),
+              invariants=["CofactorIsDeterminant", "AgreesWithDefinition", "FirstOrderOK", "TranslationInvariant", "EmitVec"])
+    with open(cases_file, "a") as f:
+        r = run_tlc("mc/MCVPred.tla", cfg, tag_sink={"PRED": f}, tags=("PRED",), timeout=3000)
+    if r.violation:
+        raise ToolError("VPred: the transcription of the predicate disagrees with its definition: %s\n%s" % (r.violation, r.raw_tail[-2500:]))
+    out.coverage["states"] = out.coverage.get("states", 0) + r.distinct
+    out.coverage["transitions"] = out.coverage.get("transitions", 0) + r.states
+    out.coverage.setdefault("models", {})["VPred/" + grid] = dict(states=r.distinct, wall=round(r.wall, 1))
+    log("VPred %s: %d states (%.1fs)" % (grid, r.distinct, r.wall))
+
+
+def pred_cases(out, tier, tag):
+    ensure_dirs()
+    cases_file = os.path.join(OUT, "%s_predcases.ndjson" % tag)
+    open(cases_file, "w").close()
+    if tier == "quick":
+        run_vpred(out, "g13", 7, cases_file)
+    else:
+        run_vpred(out, "g13", 2, cases_file)
+        run_vpred(out, "g17", 11, cases_file)
+    return cases_file
+
+
+def degenerate_lattice_inputs(seed, tier):
+    """Inputs on which the exact path is consulted: exact lattices and sub-lattices, wall-hugging and planar sets."""
+    inputs = sim_inputs(seed, 30 if tier == "quick" else 200, tier, dims=(3, 3, 2, 1))
+    rng = random.Random(seed + 99)
+    k = len(inputs)
+    for (G, dim, per) in [((2, 2, 2), 3, False), ((3, 3, 3), 3, True), ((4, 4, 1), 2, False), ((3, 3, 1), 2, True), ((4, 2, 2), 3, False)]:
+        pts = lattice_points(G, dim, per)
+        inputs.append({"id": k + 1, "G": list(G), "dim": dim, "per": per, "gens": [list(p) for p in pts]})
+        k += 1
+    return inputs
+
+
+def check_C10(tier, seed):
+    out = Outcome("C10", tier, seed)
+    cases_file = pred_cases(out, tier, "C10")
+    ntuples = sum(1 for _ in open(cases_file))
+    # the builder always supplies positions inside the grid domain: VCell.QueriesInDomain on small families
+    for name in (["R3s", "P3a", "P2a", "D1p"] if tier == "quick" else ["R3a", "P3a", "P3b", "P2a", "P2x", "D2a", "D1a", "D1p"]):
+        cfg = os.path.join(OUT, "tlc", "vcell_dom_%s.cfg" % name)
+        spec = FAMILIES[name]
+        consts = dict(Inputs=("<-", "MCInputs"), Ties="keep", Order=spec["order"], LGx=spec["G"][0], LGy=spec["G"][1], LGz=spec["G"][2],
+                      LDim=spec["dim"], LPer=spec["per"], LNmin=spec["nmin"], LNmax=spec["nmax"], LFix=spec["fix"], UseFile=False, Emit=False)
+        write_cfg(cfg, constants=consts, invariants=["TypeOK", "QueriesInDomain", "Oriented", "NoDegenerate"],
+                  view="AbstractView" if spec["view"] else None)
+        r = run_tlc("mc/MCVCell.tla", cfg, env_extra={"VV_INPUTS": "/dev/null"}, timeout=3000)
+        if r.violation:
+            raise ToolError("VCell.QueriesInDomain violated in the model (%s): %s" % (name, r.violation))
+        out.coverage["states"] += r.distinct
+        out.coverage["transitions"] += r.states
+        out.coverage["models"]["VCell.QueriesInDomain/" + name] = dict(states=r.distinct, wall=round(r.wall, 1))
+    total_evals = 0
+    for profile in ("release", "dev"):
+        binp = build_harness(profile=profile)
+        res_file = os.path.join(OUT, "C10_pred_%s.json" % profile)
+        run_harness(binp, ["pred", "--cases", cases_file, "--out", res_file, "--seed", str(seed)])
+        res = json.load(open(res_file))
+        log("pred replay (%s): %s" % (profile, res["stats"]))
+        total_evals += res["stats"]["evaluations"]
+        for f in res["failures"]:
+            out.violation("%s [%s profile] detail=%s" % (f["what"], profile, json.dumps(f["detail"])[:300]), f)
+        out.coverage.setdefault("replay", {})[profile] = res["stats"]
+        samples = res["samples"]
+    out.coverage.update({
+        "traces_validated_against_impl": ntuples,
+        "evaluations": total_evals,
+        "distinct_nontrivial": ntuples,
+        "exhaustive": True,
+        "rule": "TLC enumerates every 5-tuple of the grid (13^5 quick) and checks transcription = determinant = geometric definition; a "
+                "deterministic 1/EmitMod sample of the tuples (all kinds, incl. co-spherical and flat tetrahedra) is replayed into the real "
+                "predicate as is, with b/c swapped, scaled by 3, 2^20, 2^40+7, 2^49 and translated anywhere in [0,2^52), and - co-spherical "
+                "tuples - with the query moved by one grid unit (expected sign from the first-order data TLC computed); the grid map is "
+                "probed on 400 boxes (mirror images, periodic images, closed box) for range and monotonicity, in release and dev profile",
+        "samples": samples[:2] if samples else [json.loads(open(cases_file).readline())],
+    })
+    out.assumptions = ["TLC integer arithmetic (32 bit, overflow aborts) on the small grid; transport to the 52-bit grid by homogeneity "
+                       "(det scales with k^5) and translation invariance, which are theorems about determinants",
+                       "i128 arithmetic in the harness for k*L + m4"]
+    return out.finish()
+
+
+BACKENDS = ["ibig", "dashu", "malachite", "num_bigint"]
+
+
+def check_C11(tier, seed):
+    out = Outcome("C11", tier, seed)
+    cases_file = pred_cases(out, tier, "C11")
+    ntuples = sum(1 for _ in open(cases_file))
+    inputs = degenerate_lattice_inputs(seed, tier)
+    inf = os.path.join(OUT, "C11_inputs.ndjson")
+    with open(inf, "w") as f:
+        for i in inputs:
+            f.write(json.dumps(i) + "\n")
+    per_backend = {}
+    for be in BACKENDS:
+        binp = build_harness(features=["rayon", be]) if be != "ibig" else build_harness()
+        rf = os.path.join(OUT, "C11_pred_%s.json" % be)
+        run_harness(binp, ["pred", "--cases", cases_file, "--out", rf, "--seed", str(seed)])
+        pr = json.load(open(rf))
+        tf = os.path.join(OUT, "C11_tokens_%s.json" % be)
+        run_harness(binp, ["tokens", "--inputs", inf, "--out", tf])
+        tk = json.load(open(tf))
+        per_backend[be] = (pr, tk)
+        log("backend %s: pred %s, exact calls %d (non-zero decisions %d)" % (be, pr["stats"], tk["exact_calls"], tk["nonzero_exact_decisions"]))
+        for f in pr["failures"]:
+            if "predicate" in f["what"]:
+                out.violation("backend %s: %s detail=%s" % (be, f["what"], json.dumps(f["detail"])[:300]), dict(f, backend=be))
+        if tk["exact_calls"] == 0:
+            raise ToolError("the degenerate inputs never reached the exact predicate (vacuous)")
+    ref_pr, ref_tk = per_backend["ibig"]
+    ndiff = 0
+    for be in BACKENDS[1:]:
+        pr, tk = per_backend[be]
+        if pr["sign_token"] != ref_pr["sign_token"]:
+            out.violation("backend %s: predicate signs differ from ibig on the replayed vectors" % be, {"backend": be})
+        for a, b in zip(ref_tk["tokens"], tk["tokens"]):
+            if a["tok"] != b["tok"]:
+                ndiff += 1
+                inp = [i for i in inputs if i["id"] == a["id"]][0]
+                out.violation("backend %s: tessellation differs bitwise from ibig (input id %d, embedding %d: %s vs %s)" % (be, a["id"], a["emb"], b["tok"], a["tok"]),
+                              {"backend": be, "input": inp, "embedding_index": a["emb"], "ibig": a, "other": b})
+    nruns = len(ref_tk["tokens"])
+    out.coverage.update({
+        "traces_validated_against_impl": ntuples * len(BACKENDS),
+        "evaluations": sum(p["stats"]["evaluations"] for p, _ in per_backend.values()) + nruns * len(BACKENDS),
+        "distinct_nontrivial": sum(1 for t in ref_tk["tokens"] if t["exact_calls"] > 0),
+        "rule": "for each backend (ibig, dashu, malachite, num_bigint; rug cannot be built here: no m4/GMP): the VPred vectors must give the "
+                "specification's sign; the dump tokens of the tessellations of degenerate lattice inputs x 4 embeddings must be bitwise equal "
+                "to ibig's. distinct_nontrivial = (input, embedding) runs in which the exact predicate was consulted; "
+                "nonzero_exact_decisions counts exact decisions that were not ties (where the sign extraction matters)",
+        "backends": {be: dict(pred=p["stats"], exact_calls=t["exact_calls"], nonzero_exact_decisions=t["nonzero_exact_decisions"],
+                              runs_with_exact=t["runs_with_exact"]) for be, (p, t) in per_backend.items()},
+        "samples": [inputs[0], inputs[-1]],
+        "token_differences": ndiff,
+    })
+    out.assumptions = ["rug backend out of reach (needs m4/GMP)", "same assumptions as C10 for the predicate vectors"]
+    return out.finish()
+
+
 CHECKS = {"C01": check_C01, "C02": check_C02, "C04": check_C04, "C05": check_C05, "C06": check_C06,
-          "C08": check_C08, "C16": check_C16, "C03": check_C03, "C07": check_C07, "C12": check_C12, "C13": check_C13, "C09": check_C09, "C17": check_C17, "C18": check_C18}
+          "C08": check_C08, "C16": check_C16, "C03": check_C03, "C07": check_C07, "C12": check_C12, "C13": check_C13, "C09": check_C09, "C17": check_C17, "C18": check_C18, "C10": check_C10, "C11": check_C11}
 
 
 def run_check(pid, tier, seed):
@@ -938,7 +1085,12 @@ def run_check(pid, tier, seed):
 
 
 def setup():
+    """Everything that can be built ahead of time (the checks rebuild incrementally from /repo's working tree anyway)."""
     build_harness()
+    build_harness(profile="dev")
+    build_harness(features=["ibig"])
+    for be in BACKENDS[1:]:
+        build_harness(features=["rayon", be])
     return 0
 
 
